@@ -110,6 +110,12 @@ var kitchenMethods = []kitchenMethod{
 	{name: "RawIn", in: tBody, out: tParam, rule: rulePost("/v1/rawin", "*")},
 	{name: "RawStreamOut", in: tParam, out: tBody, ss: true, rule: ruleGet("/v1/rawstream/{string_value}")},
 	{name: "RawStreamIn", in: tBody, out: tParam, cs: true, rule: rulePost("/v1/rawstreamin", "*")},
+	// a REST GET binding on a method that is idempotent but not side-effect-free: GET toward a Connect backend is not allowed
+	{name: "GetIdem", in: tParam, out: tParam, idem: idemIdem, rule: ruleGet("/v1/idem/{string_value}")},
+	// two bindings of one method that differ in whether the body is a google.api.HttpBody (raw bytes) or the JSON of one of
+	// its fields: anything remembered per method instead of per binding shows up as history dependence
+	{name: "RawAlt", in: tParam, out: tBody, rule: withExtra(ruleGet("/v1/rawalt/{string_value}"), withResp(ruleGet("/v1/rawaltdata/{string_value}"), "data"))},
+	{name: "RawInAlt", in: tBody, out: tParam, rule: withExtra(rulePost("/v1/rawinalt", "*"), rulePost("/v1/rawinaltdata", "data"))},
 }
 
 const kitchenService = "verif.v1.Kitchen"
